@@ -177,6 +177,7 @@ def install():
 
 
 def take_orders():
+    ORDER_M[0] = None       # a map left behind by a call that raised before it reached the solver is not the next call's
     l = ORDERS[:]
     del ORDERS[:]
     return l
